@@ -1,8 +1,9 @@
-"""C15: the 12-symbol alphabet, grid enumeration, canonical integer encoding of an outcome and the 63-bit rolling
+"""C15: the 13-symbol alphabet, grid enumeration, canonical integer encoding of an outcome and the 63-bit rolling
 digest.  Pure Python (no traits import): used by the driver (implementation side) and by tools/props/c15.py.
 Mirrors coq/C15/Corr.v (sym, str_of, enc_outcome, dstep)."""
 
-ALPHABET = ["a", "b", "items", "+", "*", ".", ":", ",", "[", "]", " ", "é"]
+ALPHABET = ["a", "b", "items", "+", "*", ".", ":", ",", "[", "]", " ", "é", "1"]
+BASE = len(ALPHABET)
 MASK = (1 << 63) - 1
 
 
@@ -10,8 +11,8 @@ def grid_string(L, i):
     """i-th string of length L in itertools.product(ALPHABET, repeat=L) order."""
     out = []
     for _ in range(L):
-        out.append(ALPHABET[i % 12])
-        i //= 12
+        out.append(ALPHABET[i % BASE])
+        i //= BASE
     return "".join(reversed(out))
 
 
